@@ -78,7 +78,9 @@ def replay_open(vals, oid, cls=None, itemsize=2):
         iw = vals.get("ignore_warnings", True)
         iw = True if not isinstance(iw, bool) else iw
         out["inputs"]["ignore_warnings"] = iw
-        sr = kls(b, ignore_warnings=iw, dtype="int16" if itemsize == 2 else "float32")
+        entry = (b[:-3] + "meta") if vals.get("open_through_the_meta_file") else b          # the metadata file is a documented entry point of the reader
+        out["inputs"]["open_through_the_meta_file"] = bool(vals.get("open_through_the_meta_file"))
+        sr = kls(entry, ignore_warnings=iw, dtype="int16" if itemsize == 2 else "float32")
         want = nbytes // (nc * itemsize)
         out["ns"], out["expected_ns"] = sr.ns, want
         ok = sr.ns == want and sr._raw.shape == (want, nc)
@@ -337,6 +339,13 @@ def b_native(B):
                             v = {"nbytes": nbytes, "nc": nc, "fs": 30000.0, "fileTimeSecs": claimed / 30000.0, "ignore_warnings": iw}
                             r = replay_open(v, "", cls, itemsize)
                             B.case((nc, nfr, t, claimed, itemsize, iw, cls.__name__), not r["failed"], detail=r, inputs=v)
+    # the same recordings opened through their .meta file (documented entry point): same frames
+    for nc in (2, 385):
+        for nfr, t, claimed in ((5, 0, 5), (5, 3, 5), (40, 1, 90), (40, 0, 12)):
+            for cls in (spikeglx.Reader, spikeglx.OnlineReader):
+                v = {"nbytes": nfr * nc * 2 + t, "nc": nc, "fs": 30000.0, "fileTimeSecs": claimed / 30000.0, "open_through_the_meta_file": True}
+                r = replay_open(v, "", cls, 2)
+                B.case((nc, nfr, t, claimed, "via .meta", cls.__name__), not r["failed"], detail=r, inputs=v)
     r = replay_cbin({}, "")
     B.case("compressed_stream_length_disagrees_with_metadata", not r["failed"], detail=r)
     # several readers alive on the same recording while it grows / on two binaries sharing one metadata file: each reader keeps exposing
